@@ -23,3 +23,7 @@ THROW0(vpx__ZSt16__throw_bad_castv)
 THROW0(vpx__ZSt25__throw_bad_function_callv)
 THROW0(vpx__ZSt28__throw_bad_array_new_lengthv)
 void vpx__ZSt24__throw_out_of_range_fmtPKcz(void* fmt, ...) { (void)fmt; VP_CHK("uncaught-exception", 0); __CPROVER_assume(0); }
+/* function-local statics: single-threaded guard */
+u32 vpx___cxa_guard_acquire(void* g) { return *(u8*)g == 0; }
+void vpx___cxa_guard_release(void* g) { *(u8*)g = 1; }
+void vpx___cxa_guard_abort(void* g) { (void)g; }
